@@ -141,6 +141,56 @@ theorem sub_192x192_spec (a0 a1 a2 b0 b1 b2 : Nat)
     simp only [hz0, hz1, Bool.and_eq_true, decide_eq_true_eq]
     omega
 
+/-- one limb of the carry chain of `add_192x192` -/
+theorem add_step (a b k : Nat) (ha : a < 18446744073709551616) (hb : b < 18446744073709551616) (hk : k ≤ 1) :
+    (a + b + k) % 18446744073709551616 + (a + b + k) / 18446744073709551616 * 18446744073709551616 = a + b + k ∧
+      (a + b + k) / 18446744073709551616 ≤ 1 := by
+  omega
+
+theorem add_glue (a0 a1 a2 b0 b1 b2 r0 r1 r2 k0 k1 k2 : Nat)
+    (h0 : r0 + k0 * 18446744073709551616 = a0 + b0 + 0)
+    (h1 : r1 + k1 * 18446744073709551616 = a1 + b1 + k0)
+    (h2 : r2 + k2 * 18446744073709551616 = a2 + b2 + k1) :
+    r0 + r1 * 18446744073709551616 + r2 * 340282366920938463463374607431768211456
+      + k2 * 6277101735386680763835789423207666416102355444464034512896
+      = a0 + a1 * 18446744073709551616 + a2 * 340282366920938463463374607431768211456
+        + (b0 + b1 * 18446744073709551616 + b2 * 340282366920938463463374607431768211456) := by
+  omega
+
+/-- 192-bit addition (used by the inversion): the sum modulo `2^192`, carry `k ≤ 1` dropped;
+    no intermediate overflow -/
+theorem add_192x192_spec (a0 a1 a2 b0 b1 b2 : Nat)
+    (ha0 : a0 < 18446744073709551616) (ha1 : a1 < 18446744073709551616) (ha2 : a2 < 18446744073709551616)
+    (hb0 : b0 < 18446744073709551616) (hb1 : b1 < 18446744073709551616) (hb2 : b2 < 18446744073709551616) :
+    ∃ r0 r1 r2 k, add_192x192 a0 a1 a2 b0 b1 b2 = (r0, r1, r2) ∧
+      r0 < 18446744073709551616 ∧ r1 < 18446744073709551616 ∧ r2 < 18446744073709551616 ∧ k ≤ 1 ∧
+      val3 (r0, r1, r2) + k * 6277101735386680763835789423207666416102355444464034512896
+        = val3 (a0, a1, a2) + val3 (b0, b1, b2) ∧
+      add_192x192_ok a0 a1 a2 b0 b1 b2 = true := by
+  obtain ⟨h0, k0⟩ := add_step a0 b0 0 ha0 hb0 (by omega)
+  have e0 : a0 + b0 + 0 = add_192x192.s_z0 a0 b0 := rfl
+  rw [e0] at h0 k0
+  generalize hz0 : add_192x192.s_z0 a0 b0 = z0 at *
+  obtain ⟨h1, k1⟩ := add_step a1 b1 _ ha1 hb1 k0
+  have e1 : a1 + b1 + z0 / 18446744073709551616 = add_192x192.s_z1 a1 b1 z0 := rfl
+  rw [e1] at h1 k1
+  generalize hz1 : add_192x192.s_z1 a1 b1 z0 = z1 at *
+  obtain ⟨h2, k2⟩ := add_step a2 b2 _ ha2 hb2 k1
+  have e2 : a2 + b2 + z1 / 18446744073709551616 = add_192x192.s_z2 a2 b2 z1 := rfl
+  rw [e2] at h2 k2
+  generalize hz2 : add_192x192.s_z2 a2 b2 z1 = z2 at *
+  refine ⟨z0 % 18446744073709551616, z1 % 18446744073709551616, z2 % 18446744073709551616,
+    z2 / 18446744073709551616, ?_,
+    Nat.mod_lt _ (by omega), Nat.mod_lt _ (by omega), Nat.mod_lt _ (by omega), k2, ?_, ?_⟩
+  · unfold add_192x192
+    simp only [hz0, hz1, hz2]
+  · rw [val3_mk, val3_mk, val3_mk]
+    exact add_glue a0 a1 a2 b0 b1 b2 _ _ _ _ _ _ (by rw [h0, ← hz0]; rfl) (by rw [h1, ← hz1]; rfl)
+      (by rw [h2, ← hz2]; rfl)
+  · unfold add_192x192_ok
+    simp only [hz0, hz1, Bool.and_eq_true, decide_eq_true_eq]
+    omega
+
 /-- `sub_modulus`: the 128-bit wrapping subtraction of `M`, i.e. adding `c = 2^128 − M` -/
 theorem sub_modulus_spec (lo hi : Nat) :
     ∃ r0 r1, sub_modulus lo hi = (r0, r1) ∧ r0 < 18446744073709551616 ∧ r1 < 18446744073709551616 ∧
